@@ -76,7 +76,13 @@ func Run(in Input) Obs {
 			o.Acts = append(o.Acts, nil)
 			continue
 		}
-		act := a + int64(r.DelayFrom(t))
+		// saturate instead of overflowing (a mutant can make the delay absurdly long);
+		// 2^63-1 is reserved for "refused"
+		d := int64(r.DelayFrom(t))
+		act := int64(1<<63 - 2)
+		if d >= 0 && a >= 0 && d < act-a {
+			act = a + d
+		}
 		o.Acts = append(o.Acts, &act)
 	}
 	if in.ProbeN > 0 {
@@ -97,11 +103,34 @@ func Run(in Input) Obs {
 
 // ---- rendering ----
 
+// Instants are printed as primitive 63-bit integers and converted to Z inside Coq
+// (C18_Corr.zp / zn / zl / ol): a 14-digit Z literal costs ~1 ms to elaborate.
+func coqZ(n int64) string {
+	if n < 0 {
+		return fmt.Sprintf("(zn %d)", -n)
+	}
+	return fmt.Sprintf("(zp %d)", n)
+}
+
 func coqOZ(p *int64) string {
 	if p == nil {
 		return "None"
 	}
-	return "(Some " + core.CoqZ(*p) + ")"
+	return "(Some " + coqZ(*p) + ")"
+}
+
+func coqInts(xs []int64) string {
+	return "(zl " + core.CoqList(xs, func(x int64) string { return fmt.Sprintf("%d", x) }) + "%uint63)"
+}
+
+// granted instants; 2^63-1 (C18_Corr.refused) stands for "reservation not OK"
+func coqActs(xs []*int64) string {
+	return "(ol " + core.CoqList(xs, func(x *int64) string {
+		if x == nil {
+			return "9223372036854775807"
+		}
+		return fmt.Sprintf("%d", *x)
+	}) + "%uint63)"
 }
 
 func Render(in Input, obs *Obs, crash string) core.Case {
@@ -114,13 +143,13 @@ func Render(in Input, obs *Obs, crash string) core.Case {
 		raw = fmt.Sprintf("(Some (mkRaw %s %s))", coqOZ(in.IntervalNs), coqOZ(in.Burst))
 	}
 	c := core.Case{}
-	coqObs := fmt.Sprintf("(mkObs %s %s %s %s %s %s)", core.CoqBool(o.Loaded), core.CoqBool(o.Inf), core.CoqZ(o.Burst),
-		core.CoqList(o.Acts, coqOZ), core.CoqList(o.Probe, core.CoqBool), core.CoqZ(o.WallNs))
+	coqObs := fmt.Sprintf("(mkObs %s %s %s %s %s %s)", core.CoqBool(o.Loaded), core.CoqBool(o.Inf), coqZ(o.Burst),
+		coqActs(o.Acts), core.CoqList(o.Probe, core.CoqBool), coqZ(o.WallNs))
 	if crash != "" {
 		// a crash is reported as a direct finding by the driver; make the case a mismatch as well
-		coqObs = "(mkObs true true (-7)%Z [] [] (0)%Z)"
+		coqObs = "(mkObs true true (zn 7) [] [] (zp 0))"
 	}
-	c.Coq = fmt.Sprintf("(mkCase %s %s %d %s\n  %s)", raw, core.CoqList(in.Arrivals, core.CoqZ), in.ProbeN, core.CoqZ(in.BudgetNs), coqObs)
+	c.Coq = fmt.Sprintf("(mkCase %s %s %d %s\n  %s)", raw, coqInts(in.Arrivals), in.ProbeN, coqZ(in.BudgetNs), coqObs)
 	c.JSON = o
 	b, _ := json.Marshal(in.Arrivals)
 	c.Key = fmt.Sprintf("%v|%s|%s|%s|%d", in.HasSettings, coqOZ(in.IntervalNs), coqOZ(in.Burst), b, in.ProbeN)
